@@ -149,6 +149,7 @@ class Expect:
         self.links_after_either = False
         self.link_either = False  # a connection whose acceptance the property does not fix
         self.link_fail = None  # (verdict, reason) of the connection that ends the call
+        self.ring = False
         self.done = False
         self.unknown = False  # the model cannot follow a successful outcome (e.g. unknown traced tail)
         self.new_nodes = []  # model node indexes created by a successful call, in adoption order
@@ -175,6 +176,7 @@ class Expect:
         self.done = True
         self.verdict, self.reason = verdict, reason
         self.link_fail = (verdict, reason)
+        self.ring = self.m.closes_future_ring(links)  # the refused connection would (also) close a ring of placeholders
         if any(not self.m.is_w(n) for sub, pub in links for n in (sub[0], pub[0])):
             self.tags.add('via-future')
         if verdict == 'illegal' and reason == 'self-feed':
